@@ -248,6 +248,8 @@ SIG_EVALFN = 'sloppy-eval-function-declaration-misses-eval-lexical-scope'
 SIG_LEXDEAD = 'lexical-declaration-in-dead-code-rejected'
 SIG_FWDPARAM = 'param-initialiser-after-forward-reference-not-stored'
 SIG_DOWHILE = 'do-while-completion-value-stale-after-abrupt-exit'
+SIG_CONSTTDZ = 'assignment-to-const-in-tdz-throws-typeerror'
+SIG_BLOCKJUMP = 'block-wrapped-jump-loses-completion-value'
 LEXDEAD_MSG = 'Compiler bug: Lexical declaration for an unbound name'
 BADKINDS = ('PANIC', 'SYNTAXERROR', 'ERROR', 'CRASH')
 
@@ -292,6 +294,8 @@ def classify_failure(harness, model, seed, i, f):
         if 'R' in sub: x = G.neutralise(x, 'raw')
         if 'P' in sub: x = G.neutralise_params(x)
         if 'D' in sub: x = G.dowhile_to_while(x)
+        if 'C' in sub: x = G.const_assign_reads_first(x)
+        if 'B' in sub: x = G.unwrap_jump_blocks(x)
         return x
 
     def raw_sig():
@@ -300,31 +304,32 @@ def classify_failure(harness, model, seed, i, f):
         if strict and (G.nonsimple_params_with_raw(var) or G.nonsimple_params_with_raw(prog)):
             return SIG_PARAMS
         return None
-    def goja_raises_first():
-        # symptom of the known parameter-store defect: at the FIRST point where goja and the semantics part ways,
-        # goja raises/logs a ReferenceError (TDZ) the semantics does not.  The opposite direction (a ReferenceError
-        # goja fails to raise) is never attributed to it.
+    def model_raises_first():
+        # The known parameter-store defect makes goja raise a ReferenceError (TDZ) the semantics does not raise
+        # (possibly swallowed by a catch).  The OPPOSITE symptom -- at the first point where the two part ways the
+        # semantics raises/logs a ReferenceError and goja does not -- is never attributed to it (that is what a
+        # dropped TDZ check looks like).
         if not model:
-            return False
+            return True
         g = run_harness(harness, [json.dumps({'id': 'v', 'src': placement_src(var, pl), 'strict': strict, 'timeout_ms': 3000})])
         vv = var if pl != 'function' else G.function_placement(var)
         m = run_proc([model], ['run %d %s' % (FUEL, G.to_sexp(vv, strict))])
         if 'v' not in g or not m or not comparable(m[0]):
-            return False
+            return True
         go, mo = g['v']['out'], m[0]
         if ' | ' not in go or ' | ' not in mo:
-            return False
+            return True
         gc, gl = go.split(' | ', 1)
         mc, ml = mo.split(' | ', 1)
         if gl == ml:
-            return gc == 'T <ReferenceError>' and mc != gc
-        if ml.startswith(gl) and gc == 'T <ReferenceError>':
+            return mc == 'T <ReferenceError>' and gc != mc
+        if gl.startswith(ml) and mc == 'T <ReferenceError>':
             return True
         k = 0
         while k < len(gl) and k < len(ml) and gl[k] == ml[k]:
             k += 1
-        start = gl.rfind(',', 0, k) + 1
-        return gl[start:].startswith('<ReferenceError>') and not ml[start:].startswith('<ReferenceError>')
+        start = ml.rfind(',', 0, k) + 1
+        return ml[start:].startswith('<ReferenceError>') and not gl[start:].startswith('<ReferenceError>')
     try:
         if pair_ok(harness, model, prog, var, strict, pl):
             return None                      # does not reproduce in isolation: leave it unclassified
@@ -336,21 +341,21 @@ def classify_failure(harness, model, seed, i, f):
         if pl == 'eval' and not strict and (G.toplevel_fdecl_and_lexical(var) or G.toplevel_fdecl_and_lexical(prog)) \
                 and pair_ok(harness, model, prog, var, strict, 'global') and pair_ok(harness, model, prog, var, True, 'eval'):
             return SIG_EVALFN                # only the sloppy direct-eval placement fails, and the pattern is present
-        letters = 'PDJRT'
+        letters = 'PDCBJRT'
         changed = {k: (apply(prog, k) != prog or apply(var, k) != var) for k in letters}
         fwdpat = G.fwd_param_pattern(var) or G.fwd_param_pattern(prog)
         usable = [k for k in letters if changed[k] and not (k == 'R' and raw_sig() is None)
-                  and not (k == 'P' and not (fwdpat and goja_raises_first()))]
+                  and not (k == 'P' and not (fwdpat and not model_raises_first()))]
         import itertools
-        for size in range(1, len(usable) + 1):
+        for size in range(1, min(3, len(usable)) + 1):
             for sub in itertools.combinations(usable, size):
                 sub = ''.join(sub)
                 if pair_ok(harness, model, apply(prog, sub), apply(var, sub), strict, pl):
-                    return {'P': SIG_FWDPARAM, 'D': SIG_DOWHILE, 'T': SIG_FINALLY, 'J': SIG_JUMP, 'R': raw_sig()}[sub[0]]
+                    return {'P': SIG_FWDPARAM, 'D': SIG_DOWHILE, 'C': SIG_CONSTTDZ, 'B': SIG_BLOCKJUMP, 'T': SIG_FINALLY, 'J': SIG_JUMP, 'R': raw_sig()}[sub[0]]
         # sloppy direct-eval defect combined with others: with every other trigger neutralised the sloppy eval
         # placement still fails, while global placement and strict eval pass
         if pl == 'eval' and not strict and (G.toplevel_fdecl_and_lexical(var) or G.toplevel_fdecl_and_lexical(prog)):
-            np_, nv_ = apply(prog, 'TJRPD'), apply(var, 'TJRPD')
+            np_, nv_ = apply(prog, 'TJRPDCB'), apply(var, 'TJRPDCB')
             if pair_ok(harness, model, np_, nv_, False, 'global') and pair_ok(harness, model, np_, nv_, True, 'eval'):
                 return SIG_EVALFN
     except Exception:
